@@ -15,7 +15,7 @@ from __future__ import annotations
 
 import ast
 
-from .. import determinism
+from .. import determinism, optional
 from ..dispatch import flat, slice_function
 from ..flow import exits, own_nodes, positional_range, required_kwonly
 from ..model import model_of
@@ -196,6 +196,7 @@ def run(chk):
     chk.rule("R6", "compile_col_expr of each back end handles every expression class or refuses with a documented error")
     chk.rule("R7", "SqlImpl.__new__ maps every dialect to an existing SqlImpl subclass that declares backend_name")
     chk.rule("R8", "no operator is registered twice in one store for the same signature (later silently wins / assert)")
+    chk.rule("R9", "optional slots of AST nodes (`X | None`) are dereferenced / passed to non-optional parameters only under an `is not None` test")
     chk.rule("A12", "no ordered output in backend/ or pipe/ depends on the iteration order of a set")
 
     chk.floor("registry", "registrations", len(regs), 240)
@@ -490,6 +491,9 @@ def run(chk):
             has_else = True
     chk.ob("R7", sqlmod, new, "dialect chain has a final else", has_else,
            "SqlImpl.__new__: an unknown dialect leaves `Impl` unbound (UnboundLocalError instead of a fallback)")  # fmt: skip
+
+    # ---- R9 optional-slot discipline ---------------------------------------------
+    optional.run_rule(chk, "R9", sym)
 
     # ---- A12 determinism -------------------------------------------------------
     determinism.run_rule(chk, "A12", scope=("backend.", "pipe.", "tree.verbs", "tree.ast"))
